@@ -270,6 +270,23 @@ func (d *replDriver) sampler() {
 // write executes one primary write: a put / delete, a committed transaction, or (api "ab" / "abn") one
 // Engine.ApplyBatch call - with "abn" the entries' SequenceNumber field holds the number the batch is about to get.
 func (d *replDriver) write(op []kvEntry, api string) error {
+	if api == "w" && len(op) > 1 {
+		// a transaction keeps one operation per key (the last one): log what reaches the primary's log, so that the
+		// number of logged operations is the number of log entries
+		var eff []kvEntry
+		for i, x := range op {
+			last := true
+			for _, y := range op[i+1:] {
+				if y.K == x.K {
+					last = false
+				}
+			}
+			if last {
+				eff = append(eff, x)
+			}
+		}
+		op = eff
+	}
 	d.log.ev(map[string]interface{}{"e": "w", "op": op})
 	var err error
 	for try := 0; try < 200; try++ {
@@ -473,7 +490,10 @@ func replSysCmd(args []string) int {
 		state = fmt.Sprint(d.repl.mgr.Status()["state"])
 	}
 	if stable >= 4 {
-		d.log.ev(map[string]interface{}{"e": "conv", "ms": convAt.Milliseconds(), "pst": pst, "samples": d.nsamples})
+		// the replica engine numbers its own log: one number per entry it was handed since it was created
+		var rcount uint64
+		fmt.Sscan(replEngLastSeq(d.repl.eng), &rcount)
+		d.log.ev(map[string]interface{}{"e": "conv", "ms": convAt.Milliseconds(), "pst": pst, "samples": d.nsamples, "rcount": rcount})
 	} else {
 		d.log.ev(map[string]interface{}{"e": "noconv", "pst": pst, "rst": rst, "replica_state": state, "samples": d.nsamples,
 			"primary_status": fmt.Sprint(d.prim.mgr.Status()["replicas"])})
